@@ -494,6 +494,21 @@ func checkC15(c *Ctx) {
 				Observed: strings.Join(toks, " "), Model: strings.Join(mt, " ")})
 		}
 	}
+	// end to end: the model's text-to-value functions (the ones the C15_*_text theorems are about) against the parser
+	textTie := func(what, text, impl string, cs map[string]any) {
+		if !isASCII(text) {
+			return
+		}
+		m := c.Drv.Ask("ps text " + what + " " + hexEnc(text))
+		if m == "ood" {
+			res.Count("text-model/outside")
+			return
+		}
+		res.Count("text-model/compared/" + what + "/" + strings.SplitN(m, " ", 2)[0])
+		if canonRes(what, impl) != canonRes(what, m) {
+			res.Add(Finding{Kind: "disagreement", What: "text-to-value model (scanner model + state machine) != implementation", Case: cs, Observed: impl, Model: m})
+		}
+	}
 	quoteTie := func(z string) {
 		if !isASCII(z) {
 			return
@@ -568,6 +583,7 @@ func checkC15(c *Ctx) {
 			res.Add(Finding{Kind: "disagreement", What: "collection parser: state-machine model on the real token stream != implementation", Case: cs, Observed: impl, Model: model})
 		}
 		scanTie(what, text, toks, cs)
+		textTie(what, text, impl, cs)
 		quoteTie(genStr(r))
 		if canonRes(what, impl) != canonRes(what, want) {
 			if kid != "" && isKnown("C15", kid) && impl == model {
@@ -610,6 +626,7 @@ func checkC15(c *Ctx) {
 			res.Add(Finding{Kind: "disagreement", What: "collection parser on arbitrary text: state-machine model on the real token stream != implementation", Case: cs, Observed: impl, Model: model})
 		}
 		scanTie(what, text, toks, cs)
+		textTie(what, text, impl, cs)
 		res.Case("5|"+what+"|"+text, len(toks) >= 2, cs)
 	}
 
@@ -691,7 +708,101 @@ func checkC15(c *Ctx) {
 			res.Add(Finding{Kind: "disagreement", What: "collection parser on escape-rich text: state-machine model on the real token stream != implementation", Case: cs, Observed: impl, Model: model})
 		}
 		scanTie(what, text, toks, cs)
+		textTie(what, text, impl, cs)
 		res.Case("9|"+what+"|"+text, len(toks) >= 2, cs)
+	}
+
+	// ---- stream 10: durations and bools against the Lean models of time.Duration.String / time.ParseDuration /
+	// strconv.ParseBool: (a) every generated duration: String() == model, parse.String(String()) == the duration (oracle)
+	// == model; (b) duration-like texts (random groups, fractions, units incl. both micro signs, signs, junk, values around
+	// 1<<63): parse.String vs model (the model answers "outside" where ParseDuration rounds through float64)
+	n10 := c.scale(3000, 300000)
+	durT := reflect.TypeOf(time.Duration(0))
+	implDur := func(text string) string {
+		v, err := parse.String(text, durT)
+		if err != nil {
+			return "err"
+		}
+		return fmt.Sprintf("ok %d", int64(*(v.Interface().(*time.Duration))))
+	}
+	for i := 0; i < n10; i++ {
+		var d int64
+		switch r.Intn(8) {
+		case 0:
+			d = []int64{0, 1, -1, 999, 1000, 1001, 999999, 1000000, 999999999, 1000000000, 59999999999, 60000000000, 3599999999999, 3600000000000,
+				math.MaxInt64, math.MinInt64, math.MaxInt64 - 1, math.MinInt64 + 1, 1500, 1500000, 90000000000, 100000000, 10, 1000000001}[r.Intn(24)]
+		case 1:
+			d = int64(r.U64())
+		case 2:
+			d = int64(r.U64() >> uint(r.Intn(64)))
+		case 3:
+			d = int64(r.Intn(1000)) * []int64{1, 1000, 1000000, 1000000000, 60000000000, 3600000000000}[r.Intn(6)]
+		default:
+			d = int64(r.U64()>>uint(1+r.Intn(63))) / []int64{1, 10, 100, 1000, 100000, 10000000}[r.Intn(6)] * []int64{1, 10, 100, 1000, 100000, 10000000}[r.Intn(6)]
+			if r.Chance(30) {
+				d = -d
+			}
+		}
+		text := time.Duration(d).String()
+		cs := map[string]any{"stream": "duration", "nanoseconds": d, "text": text}
+		if m, want := c.Drv.Ask(fmt.Sprintf("ps durfmt %d", d)), "ok "+hexEnc(text); m != want {
+			res.Add(Finding{Kind: "disagreement", What: "Duration.String model != time.Duration.String", Case: cs, Observed: want, Model: m})
+		}
+		impl, want := implDur(text), fmt.Sprintf("ok %d", d)
+		if impl != want {
+			res.Add(Finding{Kind: "violation", What: "duration does not parse back from its text", Case: cs, Expected: want, Observed: impl})
+		}
+		if m := c.Drv.Ask("ps dur " + hexEnc(text)); m != impl {
+			res.Add(Finding{Kind: "disagreement", What: "ParseDuration model != parse.String on a printed duration", Case: cs, Observed: impl, Model: m})
+		}
+		res.Count("dur/printed")
+		res.Case("10|"+text, d != 0, cs)
+		// (b) duration-like text
+		var sb strings.Builder
+		if r.Chance(30) {
+			sb.WriteString([]string{"-", "+", "--", " "}[r.Intn(4)])
+		}
+		for g, ng := 0, 1+r.Intn(3); g < ng; g++ {
+			switch r.Intn(6) {
+			case 0:
+			case 1:
+				sb.WriteString([]string{"9223372036854775807", "9223372036854775808", "9223372036854775809", "2562047", "2562048", "153722867", "153722868", "18446744073709551616", "0", "00", "007"}[r.Intn(11)])
+			default:
+				sb.WriteString(strconv.Itoa(r.Intn([]int{10, 100, 5000, 3000000}[r.Intn(4)])))
+			}
+			if r.Chance(45) {
+				sb.WriteByte('.')
+				for k, nk := 0, r.Intn([]int{2, 4, 7, 10, 13, 21}[r.Intn(6)]); k < nk; k++ {
+					sb.WriteByte("0000123456789"[r.Intn(13)])
+				}
+			}
+			sb.WriteString([]string{"ns", "us", "µs", "μs", "ms", "s", "m", "h", "h", "s", "", "d", "S", "sec", "m s", "hs", "\xc2s", "n"}[r.Intn(18)])
+		}
+		t2 := sb.String()
+		if r.Chance(8) {
+			t2 = []string{"", "0", "-0", "+0", "+", "-", ".", ".s", "-.s", "0s", "1", "s", "1e3s", "1_000s", "١s"}[r.Intn(15)]
+		}
+		cs2 := map[string]any{"stream": "duration-like text", "text": t2, "hex": hexEnc(t2)}
+		impl2 := implDur(t2)
+		m2 := c.Drv.Ask("ps dur " + hexEnc(t2))
+		if m2 == "ood" {
+			res.Count("dur/text/outside the model (inexact fraction)")
+		} else {
+			res.Count("dur/text/" + strings.SplitN(impl2, " ", 2)[0])
+			if m2 != impl2 {
+				res.Add(Finding{Kind: "disagreement", What: "ParseDuration model != parse.String on duration-like text", Case: cs2, Observed: impl2, Model: m2})
+			}
+		}
+		res.Case("10b|"+t2, strings.HasPrefix(impl2, "ok"), cs2)
+		// bools
+		bt := []string{"1", "t", "T", "TRUE", "true", "True", "0", "f", "F", "FALSE", "false", "False", "", "yes", "tRUE", "2", " true", "true ", "on", "FALSE "}[r.Intn(20)]
+		bi := "err"
+		if v, err := parse.String(bt, reflect.TypeOf(true)); err == nil {
+			bi = fmt.Sprintf("ok %v", *(v.Interface().(*bool)))
+		}
+		if bm := c.Drv.Ask("ps bool " + hexEnc(bt)); bm != bi {
+			res.Add(Finding{Kind: "disagreement", What: "ParseBool model != parse.String", Case: map[string]any{"text": bt}, Observed: bi, Model: bm})
+		}
 	}
 
 	// ---- stream 4: floats, complex, bool, duration, string (oracle only)
